@@ -541,17 +541,27 @@ theorem alnum_range (c : Char) (h : c.isAlphanum = true) : 48 ≤ c.toNat ∧ c.
   have e8 : (57 : UInt32).toNat = 57 := rfl
   omega
 
+/-- RFC 3986 sub-delims: legal unescaped in userinfo and in a path segment -/
+def subDelims : List Char := ['!', '$', '&', '\'', '(', ')', '*', '+', ',', ';', '=']
+
 /-- every character a rendered URI can contain -/
 def urlCh (c : Char) : Bool :=
-  c.isAlphanum || ['_', '.', '-', '~', '%', ':', '/', '?', '[', ']', '@', '&', '='].contains c
+  c.isAlphanum || (['_', '.', '-', '~', '%', ':', '/', '?', '[', ']', '@'] ++ subDelims).contains c
 
 theorem urlCh_of_alnum (c : Char) (h : c.isAlphanum = true) : urlCh c = true := by simp [urlCh, h]
 
-theorem urlCh_range (c : Char) (h : urlCh c = true) : 37 ≤ c.toNat ∧ c.toNat ≤ 126 := by
-  simp only [urlCh, Bool.or_eq_true, List.contains_cons, List.contains_nil, Bool.or_false, beq_iff_eq] at h
+theorem urlCh_of_mem (c : Char)
+    (h : c ∈ ['_', '.', '-', '~', '%', ':', '/', '?', '[', ']', '@'] ++ subDelims) : urlCh c = true := by
+  simp only [urlCh, Bool.or_eq_true, List.contains_iff_mem]
+  exact Or.inr h
+
+theorem urlCh_range (c : Char) (h : urlCh c = true) : 33 ≤ c.toNat ∧ c.toNat ≤ 126 := by
+  simp only [urlCh, Bool.or_eq_true, List.contains_iff_mem] at h
   rcases h with h | h
   · have := alnum_range c h; omega
-  · rcases h with h | h | h | h | h | h | h | h | h | h | h | h | h <;> subst h <;> decide
+  · have key : ∀ d ∈ ['_', '.', '-', '~', '%', ':', '/', '?', '[', ']', '@'] ++ subDelims,
+        33 ≤ d.toNat ∧ d.toNat ≤ 126 := by decide
+    exact key c h
 
 theorem urlCh_safe (c : Char) (h : urlCh c = true) : unsafeChar c = false := by
   have hr := urlCh_range c h
@@ -566,6 +576,26 @@ theorem urlCh_of_tok (c : Char) (h : tok c = true) : urlCh c = true := by
 
 def hostCh (c : Char) : Bool := c.isAlphanum || c == '-' || c == '.' || c == '_'
 def v6Ch (c : Char) : Bool := c.isAlphanum || c == ':' || c == '.'
+
+def subDelim (c : Char) : Bool := subDelims.contains c
+/-- characters of a username as written in a URI: unreserved, escapes, sub-delims -/
+def userCh (c : Char) : Bool := tok c || subDelim c
+/-- password text may also contain ':' -/
+def passCh (c : Char) : Bool := userCh c || c == ':'
+/-- a path segment may also contain '@' -/
+def pathCh (c : Char) : Bool := passCh c || c == '@'
+
+theorem urlCh_of_pathCh (c : Char) (h : pathCh c = true) : urlCh c = true := by
+  simp only [pathCh, passCh, userCh, subDelim, Bool.or_eq_true, beq_iff_eq, List.contains_iff_mem] at h
+  rcases h with ((h | h) | h) | h
+  · exact urlCh_of_tok c h
+  · exact urlCh_of_mem c (by simp [h])
+  · subst h; decide
+  · subst h; decide
+
+theorem pathCh_of_passCh (c : Char) (h : passCh c = true) : pathCh c = true := by simp [pathCh, h]
+theorem pathCh_of_userCh (c : Char) (h : userCh c = true) : pathCh c = true := by simp [pathCh, passCh, h]
+theorem userCh_of_tok (c : Char) (h : tok c = true) : userCh c = true := by simp [userCh, h]
 
 theorem urlCh_of_hostCh (c : Char) (h : hostCh c = true) : urlCh c = true := by
   simp only [hostCh, Bool.or_eq_true, beq_iff_eq] at h
@@ -639,8 +669,8 @@ theorem urlCh_of_qCh (c : Char) (h : qCh c = true) : urlCh c = true := by
   · exact urlCh_of_alnum c h
   all_goals (subst h; decide)
 
-/-- shape of a rendered path: absent, or '/' followed by quoted text -/
-def PathOk (PATH : Str) : Prop := PATH = [] ∨ ∃ t, PATH = '/' :: t ∧ ∀ x ∈ t, tok x = true
+/-- shape of a rendered path: absent, or '/' followed by segment text -/
+def PathOk (PATH : Str) : Prop := PATH = [] ∨ ∃ t, PATH = '/' :: t ∧ ∀ x ∈ t, pathCh x = true
 
 theorem urlsplit_parts (v6ok : Str → Bool) (tls : Bool) (NL PATH : Str) (os : List UOpt)
     (hNL : ∀ x ∈ NL, urlCh x = true ∧ netlocDelim x = false)
@@ -656,8 +686,8 @@ theorem urlsplit_parts (v6ok : Str → Bool) (tls : Bool) (NL PATH : Str) (os : 
     · simp at hx
     · rcases List.mem_cons.1 hx with rfl | hx
       · decide
-      · have := tok_props x (ht x hx)
-        exact ⟨urlCh_of_tok x (ht x hx), this.1, this.2.1⟩
+      · exact ⟨urlCh_of_pathCh x (ht x hx), class_ne pathCh x _ (ht x hx) (by decide),
+          class_ne pathCh x _ (ht x hx) (by decide)⟩
   have hQu : ∀ x ∈ renderQuery os, urlCh x = true ∧ x ≠ '#' := by
     intro x hx
     rw [renderQuery_eq] at hx
@@ -897,45 +927,46 @@ theorem hostnameOf_host (v6ok : Str → Bool) (host : Option Host) (hw : ∀ h, 
 /-- the username text `urlparse` reports for a rendered userinfo -/
 def uiUser : Option Str → Option Str → Option Str
   | none, none => none
-  | some u, none => some (quote u)
-  | u, some _ => some (quote (u.getD []))
+  | some u, none => some u
+  | u, some _ => some (u.getD [])
 
-def uCh (x : Char) : Bool := tok x || x == ':' || x == '@'
+/-- characters of a rendered userinfo (including its ':' and '@' separators) -/
+abbrev uCh : Char → Bool := pathCh
 
-theorem renderUserinfo_class (u p : Option Str) : ∀ x ∈ renderUserinfo u p, uCh x = true := by
+theorem renderUserinfo_class (u p : Option Str) (hu : ∀ e, u = some e → ∀ x ∈ e, userCh x = true)
+    (hp : ∀ e, p = some e → ∀ x ∈ e, passCh x = true) :
+    ∀ x ∈ renderUserinfo u p, uCh x = true := by
   intro x hx
-  have ht : ∀ (s : Str) x, x ∈ quote s → uCh x = true := fun s x hx => by
-    simp [uCh, quote_tok s x hx]
   cases u <;> cases p <;>
     simp only [renderUserinfo, List.mem_append, List.mem_cons, List.not_mem_nil, or_false,
       Option.getD_none, Option.getD_some] at hx
   · rcases hx with (hx | rfl | hx) | rfl
-    · exact ht _ _ hx
+    · exact absurd hx (by simp)
     · decide
-    · exact ht _ _ hx
+    · exact pathCh_of_passCh x (hp _ rfl x hx)
     · decide
   · rcases hx with hx | rfl
-    · exact ht _ _ hx
+    · exact pathCh_of_userCh x (hu _ rfl x hx)
     · decide
   · rcases hx with (hx | rfl | hx) | rfl
-    · exact ht _ _ hx
+    · exact pathCh_of_userCh x (hu _ rfl x hx)
     · decide
-    · exact ht _ _ hx
+    · exact pathCh_of_passCh x (hp _ rfl x hx)
     · decide
 
-theorem userinfo_render (u p : Option Str) (HP : Str) (hHP : ∀ x ∈ HP, x ≠ '@') :
-    userinfo (renderUserinfo u p ++ HP) = (uiUser u p, p.map quote) ∧
+theorem userinfo_render (u p : Option Str) (HP : Str) (hHP : ∀ x ∈ HP, x ≠ '@')
+    (hu : ∀ e, u = some e → ∀ x ∈ e, userCh x = true)
+    (hp : ∀ e, p = some e → ∀ x ∈ e, passCh x = true) :
+    userinfo (renderUserinfo u p ++ HP) = (uiUser u p, p) ∧
     (rpartition '@' (renderUserinfo u p ++ HP)).2.2 = HP := by
-  have hq : ∀ (s : Str), ∀ x ∈ quote s, x ≠ ':' := fun s x hx => (tok_props x (quote_tok s x hx)).2.2.2.2.1
-  have case2 : ∀ (a b : Str), userinfo ((quote a ++ ':' :: quote b ++ ['@']) ++ HP) =
-      (some (quote a), some (quote b)) ∧
-      (rpartition '@' ((quote a ++ ':' :: quote b ++ ['@']) ++ HP)).2.2 = HP := by
-    intro a b
-    have e : (quote a ++ ':' :: quote b ++ ['@']) ++ HP = (quote a ++ ':' :: quote b) ++ '@' :: HP := by
-      simp
+  have case2 : ∀ (a b : Str), (∀ x ∈ a, userCh x = true) → (∀ x ∈ b, passCh x = true) →
+      userinfo ((a ++ ':' :: b ++ ['@']) ++ HP) = (some a, some b) ∧
+      (rpartition '@' ((a ++ ':' :: b ++ ['@']) ++ HP)).2.2 = HP := by
+    intro a b ha hb
+    have e : (a ++ ':' :: b ++ ['@']) ++ HP = (a ++ ':' :: b) ++ '@' :: HP := by simp
     rw [e]
-    have := rpartition_found '@' (quote a ++ ':' :: quote b) HP hHP
-    simp only [userinfo, this, partition_found ':' (quote a) (quote b) (hq a), and_self]
+    have := rpartition_found '@' (a ++ ':' :: b) HP hHP
+    simp only [userinfo, this, partition_found ':' a b (ne_of_class ha ':' (by decide)), and_self]
   cases u with
   | none =>
     cases p with
@@ -943,30 +974,36 @@ theorem userinfo_render (u p : Option Str) (HP : Str) (hHP : ∀ x ∈ HP, x ≠
       have := rpartition_none '@' HP hHP
       simp [renderUserinfo, userinfo, this, uiUser]
     | some b =>
-      have := case2 [] b
+      have := case2 [] b (by simp) (hp _ rfl)
       simpa [renderUserinfo, uiUser] using this
   | some a =>
     cases p with
     | none =>
-      have e : (quote a ++ ['@']) ++ HP = quote a ++ '@' :: HP := by simp
-      have := rpartition_found '@' (quote a) HP hHP
-      simp only [renderUserinfo, uiUser, Option.map_none, e, userinfo, this,
-        partition_none ':' (quote a) (hq a), and_self]
+      have e : (a ++ ['@']) ++ HP = a ++ '@' :: HP := by simp
+      have := rpartition_found '@' a HP hHP
+      simp only [renderUserinfo, uiUser, e, userinfo, this,
+        partition_none ':' a (ne_of_class (hu _ rfl) ':' (by decide)), and_self]
     | some b =>
-      have := case2 a b
+      have := case2 a b (hu _ rfl) (hp _ rfl)
       simpa [renderUserinfo, uiUser] using this
 
-/-- the credential that reaches the parameters: `unquote(<reported text> or 'guest')` -/
-theorem cred_some (s : Str) : unquote (strOr (some (quote s)) guest) = orDefault (some s) guest := by
-  unfold strOr orDefault
-  by_cases h : s = []
-  · subst h
-    simp only [quote, List.flatMap_nil, if_true]
-    exact unquote_noPct guest (by decide)
-  · simp only [quote_ne_nil s h, h, if_false]
-    exact unquote_quote s
+/-- a decoded credential / vhost: the percent-decoded text as written, or the default when the
+    component is absent or empty -/
+def decodedOr (x : Option Str) (d : Str) : Str :=
+  match x with
+  | none => d
+  | some e => if e = [] then d else unquote e
 
-theorem cred_none : unquote (strOr none guest) = guest := unquote_noPct guest (by decide)
+/-- the credential that reaches the parameters: `unquote(<reported text> or 'guest')` -/
+theorem cred_eq (x : Option Str) : unquote (strOr x guest) = decodedOr x guest := by
+  have hg : unquote guest = guest := unquote_noPct guest (by decide)
+  cases x with
+  | none => exact hg
+  | some e =>
+    simp only [strOr, decodedOr]
+    split
+    · exact hg
+    · rfl
 
 /-! ### host/port part -/
 
@@ -1015,11 +1052,7 @@ theorem urlCh_of_hpCh (c : Char) (h : hpCh c = true) : urlCh c = true := by
   · exact urlCh_of_alnum c h
   all_goals (subst h; decide)
 
-theorem urlCh_of_uCh (c : Char) (h : uCh c = true) : urlCh c = true := by
-  simp only [uCh, Bool.or_eq_true, beq_iff_eq] at h
-  rcases h with (h | h) | h
-  · exact urlCh_of_tok c h
-  all_goals (subst h; decide)
+theorem urlCh_of_uCh (c : Char) (h : uCh c = true) : urlCh c = true := urlCh_of_pathCh c h
 
 /-- bracket facts of a rendered netloc -/
 theorem netloc_brackets (v6ok : Str → Bool) (UI : Str) (hUI : ∀ x ∈ UI, uCh x = true)
@@ -1072,26 +1105,37 @@ theorem patchUri_amqp (tls : Bool) (r : Str) : patchUri (amqpPrefix tls ++ r) = 
     simp [amqpPrefix, httpPrefix, patchUri, Gen.Uri.patchTable, uptoColon, takeUntil, replaceFirst,
       List.isPrefixOf]
 
-theorem renderPath_ok (v : Option Str) : PathOk (renderPath v) := by
+/-- the text of username / password / vhost as written in a URI stays inside its component:
+    username without ':' and '@', password without '@', vhost without '?' and '#', none of them with
+    '/', brackets, blanks or control characters (unreserved, `%`, sub-delims; plus ':' in the password
+    and ':' '@' in the vhost) -/
+structure Components.EncOk (c : Components) : Prop where
+  user : ∀ e, c.user = some e → ∀ x ∈ e, userCh x = true
+  pass : ∀ e, c.pass = some e → ∀ x ∈ e, passCh x = true
+  vhost : ∀ e, c.vhost = some e → ∀ x ∈ e, pathCh x = true
+
+theorem renderPath_ok (v : Option Str) (hv : ∀ e, v = some e → ∀ x ∈ e, pathCh x = true) :
+    PathOk (renderPath v) := by
   cases v with
   | none => exact Or.inl rfl
-  | some v => exact Or.inr ⟨quote v, rfl, quote_tok v⟩
+  | some v => exact Or.inr ⟨v, rfl, hv v rfl⟩
 
-theorem render_eq (c : Components) :
-    render c = amqpPrefix c.tls ++ ((renderUserinfo c.user c.pass ++ (renderHost c.host ++ renderPort c.port)) ++
+theorem renderRaw_eq (c : Components) :
+    renderRaw c = amqpPrefix c.tls ++ ((renderUserinfo c.user c.pass ++ (renderHost c.host ++ renderPort c.port)) ++
       (renderPath c.vhost ++ renderQuery c.opts)) := by
-  simp only [render, amqpPrefix, List.append_assoc]
+  simp only [renderRaw, amqpPrefix, List.append_assoc]
 
-/-- what `urlparse(patch_uri(uri))` reports for a URI rendered from well-formed components -/
-theorem urlparse_render' (v6ok : Str → Bool) (c : Components) (hwh : ∀ h, c.host = some h → h.WF v6ok) :
-    urlparse v6ok (patchUri (render c)) =
+/-- what the parser called by `UriConnection.__init__` reports for `patch_uri` of a rendered URI -/
+theorem urlparse_render' (v6ok : Str → Bool) (c : Components) (hwh : ∀ h, c.host = some h → h.WF v6ok)
+    (he : c.EncOk) :
+    urlparse v6ok (patchUri (renderRaw c)) =
       match portOf (c.port.map toDec) with
       | .ok port => .ok
-        ⟨httpScheme c.tls, uiUser c.user c.pass, c.pass.map quote,
+        ⟨httpScheme c.tls, uiUser c.user c.pass, c.pass,
          c.host.map (fun h => h.text.map Char.toLower), port, renderPath c.vhost, queryText c.opts⟩
       | .error e => .error e := by
   have hHP := renderHP_class v6ok c.host c.port hwh
-  have hUI := renderUserinfo_class c.user c.pass
+  have hUI := renderUserinfo_class c.user c.pass he.user he.pass
   have hNL : ∀ x ∈ renderUserinfo c.user c.pass ++ (renderHost c.host ++ renderPort c.port),
       urlCh x = true ∧ netlocDelim x = false := by
     intro x hx
@@ -1107,23 +1151,15 @@ theorem urlparse_render' (v6ok : Str → Bool) (c : Components) (hwh : ∀ h, c.
       have d := class_ne hpCh x '#' (hHP x hx) (by decide)
       simp [netlocDelim, a, b, d]
   have hbr := netloc_brackets v6ok _ hUI c.host c.port hwh
-  have hsplit := urlsplit_parts v6ok c.tls _ (renderPath c.vhost) c.opts hNL hbr (renderPath_ok c.vhost)
+  have hsplit := urlsplit_parts v6ok c.tls _ (renderPath c.vhost) c.opts hNL hbr (renderPath_ok c.vhost he.vhost)
   have hui := userinfo_render c.user c.pass (renderHost c.host ++ renderPort c.port)
-    (ne_of_class hHP '@' (by decide))
+    (ne_of_class hHP '@' (by decide)) he.user he.pass
   have hhi := hostinfo_hp _ c.host c.port v6ok hwh hui.2
-  have hsemi : (renderPath c.vhost).contains ';' = false := by
-    apply contains_false
-    intro x hx
-    cases hv : c.vhost with
-    | none => simp [hv, renderPath] at hx
-    | some v =>
-      simp only [hv, renderPath, List.mem_cons] at hx
-      rcases hx with rfl | hx
-      · decide
-      · exact (tok_props x (quote_tok v x hx)).2.2.1
-  rw [render_eq, patchUri_amqp]
+  -- the source calls `urlsplit`: no `;params` are cut off the path
+  have hcut : Gen.Uri.cutsParams = false := rfl
+  rw [renderRaw_eq, patchUri_amqp]
   unfold urlparse
-  simp only [hsplit, bind, Except.bind, hsemi, Bool.and_false, Bool.false_eq_true, if_false, hui.1, hhi,
+  simp only [hsplit, bind, Except.bind, hcut, Bool.false_and, Bool.false_eq_true, if_false, hui.1, hhi,
     hostnameOf_host v6ok c.host hwh, pure, Except.pure]
   cases portOf (c.port.map toDec) <;> rfl
 
@@ -1132,14 +1168,33 @@ theorem portOf_toDec_big (n : Nat) (h : 65535 < n) : portOf (some (toDec n)) = .
     simpa [List.all_eq_true] using toDec_digits n
   simp [portOf, hall, digitsVal_toDec, Nat.not_le.2 h]
 
-theorem urlparse_render (v6ok : Str → Bool) (c : Components) (hw : c.WF v6ok) :
-    urlparse v6ok (patchUri (render c)) = .ok
-      ⟨httpScheme c.tls, uiUser c.user c.pass, c.pass.map quote,
+theorem urlparse_render (v6ok : Str → Bool) (c : Components) (hw : c.WF v6ok) (he : c.EncOk) :
+    urlparse v6ok (patchUri (renderRaw c)) = .ok
+      ⟨httpScheme c.tls, uiUser c.user c.pass, c.pass,
        c.host.map (fun h => h.text.map Char.toLower), c.port, renderPath c.vhost, queryText c.opts⟩ := by
   have hport : portOf (c.port.map toDec) = .ok c.port := by
     cases hp : c.port with
     | none => rfl
     | some n => exact portOf_toDec n (hw.port n hp).2
-  rw [urlparse_render' v6ok c hw.host, hport]
+  rw [urlparse_render' v6ok c hw.host he, hport]
+
+/-- the canonical encoding keeps every component inside its character class -/
+theorem encode_ok (c : Components) : c.encode.EncOk := by
+  refine ⟨?_, ?_, ?_⟩ <;> intro e he x hx <;>
+    simp only [Components.encode, Option.map_eq_some_iff] at he <;>
+    obtain ⟨s, _, rfl⟩ := he
+  · exact userCh_of_tok x (quote_tok s x hx)
+  · simp [passCh, userCh_of_tok x (quote_tok s x hx)]
+  · exact pathCh_of_userCh x (userCh_of_tok x (quote_tok s x hx))
+
+theorem decodedOr_quote (x : Option Str) (d : Str) : decodedOr (x.map quote) d = orDefault x d := by
+  cases x with
+  | none => rfl
+  | some s =>
+    simp only [Option.map_some, decodedOr, orDefault]
+    by_cases h : s = []
+    · subst h; rfl
+    · simp only [quote_ne_nil s h, h, if_false]
+      exact unquote_quote s
 
 end Amqp.Uri
